@@ -58,7 +58,34 @@ type ProjectRunner struct {
 }
 
 func (p *ProjectRunner) GetLexicographicProcessNames() ([]string, error) {
+	p.procConfMutex.Lock()
+	defer p.procConfMutex.Unlock()
 	return p.project.GetLexicographicProcessNames()
+}
+
+// getProcessConfig returns a copy of the configuration of the process (replica) name.
+func (p *ProjectRunner) getProcessConfig(name string) (types.ProcessConfig, bool) {
+	p.procConfMutex.Lock()
+	defer p.procConfMutex.Unlock()
+	conf, ok := p.project.Processes[name]
+	return conf, ok
+}
+
+func (p *ProjectRunner) setProcessConfig(name string, conf types.ProcessConfig) {
+	p.procConfMutex.Lock()
+	defer p.procConfMutex.Unlock()
+	p.project.Processes[name] = conf
+}
+
+// getProcessConfigs returns a snapshot of the configured processes.
+func (p *ProjectRunner) getProcessConfigs() types.Processes {
+	p.procConfMutex.Lock()
+	defer p.procConfMutex.Unlock()
+	res := make(types.Processes, len(p.project.Processes))
+	for name, conf := range p.project.Processes {
+		res[name] = conf
+	}
+	return res
 }
 
 func (p *ProjectRunner) init() {
@@ -75,6 +102,7 @@ func (p *ProjectRunner) Run() error {
 	p.doneProcesses = make(map[string]*Process)
 	p.doneProcMutex.Unlock()
 	runOrder := []types.ProcessConfig{}
+	p.procConfMutex.Lock()
 	err := p.project.WithProcesses([]string{}, func(process types.ProcessConfig) error {
 		if process.IsDeferred() {
 			return nil
@@ -82,6 +110,7 @@ func (p *ProjectRunner) Run() error {
 		runOrder = append(runOrder, process)
 		return nil
 	})
+	p.procConfMutex.Unlock()
 	if err != nil {
 		return fmt.Errorf("failed to build project run order: %e", err)
 	}
@@ -297,7 +326,7 @@ func (p *ProjectRunner) GetProcessesState() (*types.ProcessesState, error) {
 	states := &types.ProcessesState{
 		States: make([]types.ProcessState, 0),
 	}
-	for name := range p.project.Processes {
+	for name := range p.getProcessConfigs() {
 		state, err := p.GetProcessState(name)
 		if err != nil {
 			return nil, err
@@ -309,7 +338,7 @@ func (p *ProjectRunner) GetProcessesState() (*types.ProcessesState, error) {
 }
 
 func (p *ProjectRunner) getProcessesStateData(filter filterFn) error {
-	for name := range p.project.Processes {
+	for name := range p.getProcessConfigs() {
 		err := p.getProcessStateData(name, filter)
 		if err != nil {
 			return err
@@ -382,7 +411,7 @@ func (p *ProjectRunner) StartProcess(name string) error {
 		log.Error().Msgf("Process %s is already running", name)
 		return fmt.Errorf("process %s is already running", name)
 	}
-	if processConfig, ok := p.project.Processes[name]; ok {
+	if processConfig, ok := p.getProcessConfig(name); ok {
 		p.runProcess(&processConfig)
 	} else {
 		return fmt.Errorf("no such process: %s", name)
@@ -396,7 +425,7 @@ func (p *ProjectRunner) StopProcess(name string) error {
 	proc := p.getRunningProcess(name)
 	verifPointR(p, "stop_checked", name, proc)
 	if proc == nil {
-		if _, ok := p.project.Processes[name]; !ok {
+		if _, ok := p.getProcessConfig(name); !ok {
 			log.Error().Msgf("Process %s does not exist", name)
 			return fmt.Errorf("process %s does not exist", name)
 		}
@@ -446,7 +475,7 @@ func (p *ProjectRunner) RestartProcess(name string) error {
 		verifPointR(p, "restart_stopped", name)
 	}
 
-	if processConfig, ok := p.project.Processes[name]; ok {
+	if processConfig, ok := p.getProcessConfig(name); ok {
 		p.runProcess(&processConfig)
 	} else {
 		return fmt.Errorf("no such process: %s", name)
@@ -455,9 +484,7 @@ func (p *ProjectRunner) RestartProcess(name string) error {
 }
 
 func (p *ProjectRunner) GetProcessInfo(name string) (*types.ProcessConfig, error) {
-	p.runProcMutex.Lock()
-	defer p.runProcMutex.Unlock()
-	if processConfig, ok := p.project.Processes[name]; ok {
+	if processConfig, ok := p.getProcessConfig(name); ok {
 		return &processConfig, nil
 	} else {
 		return nil, fmt.Errorf("no such process: %s", name)
@@ -596,12 +623,14 @@ func (p *ProjectRunner) ShutDownProject() error {
 
 	shutdownOrder := []*Process{}
 	if p.isOrderedShutDown {
+		p.procConfMutex.Lock()
 		err := p.project.WithProcesses([]string{}, func(process types.ProcessConfig) error {
 			if runningProc, ok := p.runningProcesses[process.ReplicaName]; ok {
 				shutdownOrder = append(shutdownOrder, runningProc)
 			}
 			return nil
 		})
+		p.procConfMutex.Unlock()
 		if err != nil {
 			log.Error().Msgf("Failed to build project run order: %s", err.Error())
 		}
@@ -700,7 +729,7 @@ func (p *ProjectRunner) ScaleProcess(name string, scale int) error {
 		log.Err(err).Msg("scale failed")
 		return err
 	}
-	if processConfig, ok := p.project.Processes[name]; ok {
+	if processConfig, ok := p.getProcessConfig(name); ok {
 		origScale := p.getCurrentReplicaCount(processConfig.Name)
 		scaleDelta := scale - origScale
 		if scaleDelta < 0 {
@@ -722,7 +751,7 @@ func (p *ProjectRunner) ScaleProcess(name string, scale int) error {
 
 func (p *ProjectRunner) getCurrentReplicaCount(name string) int {
 	counter := 0
-	for _, proc := range p.project.Processes {
+	for _, proc := range p.getProcessConfigs() {
 		if proc.Name == name {
 			counter++
 		}
@@ -807,10 +836,10 @@ func (p *ProjectRunner) scaleDownProcess(name string, scale int) {
 }
 
 func (p *ProjectRunner) updateReplicaCount(name string, scale int) {
-	for _, proc := range p.project.Processes {
+	for _, proc := range p.getProcessConfigs() {
 		if proc.Name == name {
 			proc.Replicas = scale
-			p.project.Processes[proc.ReplicaName] = proc
+			p.setProcessConfig(proc.ReplicaName, proc)
 			if proc.ReplicaName != proc.CalculateReplicaName() {
 				p.renameProcess(proc.ReplicaName, proc.CalculateReplicaName())
 			}
@@ -839,12 +868,14 @@ func (p *ProjectRunner) renameProcess(name string, newName string) {
 		state.Name = newName
 		p.processStates[newName] = state
 	}
+	p.procConfMutex.Lock()
 	procConf, ok := p.project.Processes[name]
 	if ok {
 		delete(p.project.Processes, name)
 		procConf.ReplicaName = newName
 		p.project.Processes[newName] = procConf
 	}
+	p.procConfMutex.Unlock()
 }
 func (p *ProjectRunner) removeProcessLogs(name string) *pclog.ProcessLogBuffer {
 	p.logsMutex.Lock()
@@ -882,7 +913,7 @@ func (p *ProjectRunner) addProcessAndRun(proc types.ProcessConfig) {
 	p.statesMutex.Lock()
 	p.processStates[proc.ReplicaName] = types.NewProcessState(&proc)
 	p.statesMutex.Unlock()
-	p.project.Processes[proc.ReplicaName] = proc
+	p.setProcessConfig(proc.ReplicaName, proc)
 	p.initProcessLog(proc.ReplicaName)
 	if !proc.IsDeferred() {
 		p.runProcess(&proc)
@@ -946,12 +977,14 @@ func (p *ProjectRunner) GetLogLength() int {
 
 // GetDependenciesOrderNames used for testing
 func (p *ProjectRunner) GetDependenciesOrderNames() ([]string, error) {
+	p.procConfMutex.Lock()
+	defer p.procConfMutex.Unlock()
 	return p.project.GetDependenciesOrderNames()
 }
 
 func (p *ProjectRunner) GetProjectState(checkMem bool) (*types.ProjectState, error) {
 	runningProcesses := 0
-	for name := range p.project.Processes {
+	for name := range p.getProcessConfigs() {
 		state, err := p.GetProcessState(name)
 		if err != nil {
 			return nil, err
@@ -1032,8 +1065,9 @@ func (p *ProjectRunner) UpdateProject(project *types.Project) (map[string]string
 	newProcs := make(map[string]types.ProcessConfig)
 	delProcs := make(map[string]types.ProcessConfig)
 	updatedProcs := make(map[string]types.ProcessConfig)
+	currentProcs := p.getProcessConfigs()
 	for name, newProc := range project.Processes {
-		if currentProc, ok := p.project.Processes[name]; ok {
+		if currentProc, ok := currentProcs[name]; ok {
 			equal := currentProc.Compare(&newProc)
 			if equal {
 				log.Debug().Msgf("Process %s is up to date", name)
@@ -1046,7 +1080,7 @@ func (p *ProjectRunner) UpdateProject(project *types.Project) (map[string]string
 			newProcs[name] = newProc
 		}
 	}
-	for name, currentProc := range p.project.Processes {
+	for name, currentProc := range currentProcs {
 		if _, ok := project.Processes[name]; !ok {
 			log.Debug().Msgf("Process %s is deleted", name)
 			delProcs[name] = currentProc
@@ -1109,7 +1143,7 @@ func (p *ProjectRunner) UpdateProcess(updated *types.ProcessConfig) error {
 	validateProbes(updated.LivenessProbe)
 	validateProbes(updated.ReadinessProbe)
 	updated.AssignProcessExecutableAndArgs(p.project.ShellConfig, p.project.ShellConfig.ElevatedShellArg)
-	if currentProc, ok := p.project.Processes[updated.ReplicaName]; ok {
+	if currentProc, ok := p.getProcessConfig(updated.ReplicaName); ok {
 		equal := currentProc.Compare(updated)
 		if equal {
 			log.Debug().Msgf("Process %s is up to date", updated.Name)
